@@ -13,7 +13,7 @@
 import re
 from . import mirparse as mp
 from .terms import *
-from .terms import T, Ctx, INT_TYPES
+from .terms import T, Ctx, INT_TYPES, NonLinear
 
 
 class NotEncodable(Exception):
@@ -45,6 +45,22 @@ class Bool:
 
     def __repr__(self):
         return "Bool(%r)" % (self.t,)
+
+
+class Flt:
+    """an f64 known to hold an *integer* value t with |t| <= 2^53 (exactly representable, arithmetic exact).
+    Every operation that could leave that envelope emits an 'fpexact' obligation; if one of them is
+    satisfiable the query is outside this model and is reported inconclusive, never as a pass."""
+    __slots__ = ("t",)
+
+    def __init__(self, t):
+        self.t = t
+
+    def __repr__(self):
+        return "Flt(%r)" % (self.t,)
+
+
+F64_EXACT = 1 << 53
 
 
 class Agg:
@@ -103,6 +119,8 @@ def merge(c, a, b):
         return Int(ite(c, a.t, b.t), a.ty)
     if isinstance(a, Bool) and isinstance(b, Bool):
         return Bool(ite(c, a.t, b.t))
+    if isinstance(a, Flt) and isinstance(b, Flt):
+        return Flt(ite(c, a.t, b.t))
     if isinstance(a, Agg) and isinstance(b, Agg) and len(a.f) == len(b.f):
         return Agg([merge(c, x, y) for x, y in zip(a.f, b.f)])
     if isinstance(a, Enum) and isinstance(b, Enum):
@@ -158,6 +176,7 @@ class Executor:
         self.models_used = set()
         self._index()
         self.const_cache = {}
+        self.spies = {}           # Fn.name -> list of (args, return value, path condition) recorded at each call
         self.generics = {}        # session-wide instantiation of generic type parameters, e.g. {"T": "i128"}
 
     # ------------------------------------------------------------ function index
@@ -280,6 +299,8 @@ class Executor:
             fs = finished[0]
             state.frames, state.pc = fs.frames, fs.pc
             ret = fs.frames[uid].get("_0", UNIT)
+            if fn.name in self.spies:
+                self.spies[fn.name].append((list(args), ret, list(state.pc)))
             return ret
         conds = [and_(*fs.pc[base_len:]) for fs in finished]
         conds = [self.ctx.name(c, "pc") if isinstance(c, T) else c for c in conds]
@@ -309,6 +330,8 @@ class Executor:
             acc_frames = newf
         state.frames = acc_frames
         state.pc = state.pc[:base_len] + [self.ctx.name(or_(*conds), "ret")]
+        if fn.name in self.spies:
+            self.spies[fn.name].append((list(args), state.frames[uid].get("_0", UNIT), list(state.pc)))
         return state.frames[uid].get("_0", UNIT)
 
     def _name_val(self, v):
@@ -316,6 +339,8 @@ class Executor:
             return Int(self.ctx.name(v.t, "m"), v.ty)
         if isinstance(v, Bool):
             return Bool(self.ctx.name(v.t, "m"))
+        if isinstance(v, Flt):
+            return Flt(self.ctx.name(v.t, "m"))
         if isinstance(v, Agg):
             return Agg([self._name_val(x) for x in v.f])
         if isinstance(v, Enum):
@@ -323,6 +348,8 @@ class Executor:
         return v
 
     def _exec_block(self, st, fn, uid, bb, depth, work, visits):
+        self._cur_pc = st.pc
+        self._cur_fn = fn.name
         if bb not in fn.blocks:
             raise NotEncodable("missing block %s in %s" % (bb, fn.name))
         for raw in fn.blocks[bb]:
@@ -519,6 +546,8 @@ class Executor:
             return Int(self.ctx.var("junk"), ty)
         if ty == "bool":
             return Bool(self.ctx.var("junk", "Bool"))
+        if ty == "f64":
+            return Flt(self.ctx.var("junk"))
         return Opaque("absent:" + ty)
 
     def _variant_discr(self, enum, vname):
@@ -605,12 +634,23 @@ class Executor:
             return Opaque("str")
         m = re.match(r"^(-?[\d.eE+-]+|inf|-inf|NaN)(f64|f32)$", s)
         if m:
+            try:
+                fv = float(m.group(1))
+                if fv == int(fv) and abs(fv) <= F64_EXACT:
+                    return Flt(int(fv))
+            except (ValueError, OverflowError):
+                pass
             return Opaque("float:" + s)
         # named constant
         name = _strip_generics(s)
         mq = re.match(r"^<(.+?) as (.+?)>::(.*::promoted\[\d+\])$", name)
         if mq:
             name = _last_seg(mq.group(2)) + "::" + mq.group(3)
+        mp_ = re.search(r"::(promoted\[\d+\])$", name)
+        if mp_ and name not in self.consts and getattr(self, "_cur_fn", None):
+            alt = self._cur_fn + "::" + mp_.group(1)
+            if alt in self.consts:
+                name = alt
         cands = [n for n in self.consts if n == name or n.endswith("::" + name) or name.endswith("::" + n)]
         if len(cands) >= 1:
             cands.sort(key=len)
@@ -673,6 +713,8 @@ class Executor:
                     return Int(sub(hi, a.t) if lo == 0 else sub(neg(a.t), 1), a.ty)
             if rv[1] == "Neg" and isinstance(a, Int):
                 return Int(wrap(neg(a.t), a.ty), a.ty)
+            if rv[1] == "Neg" and isinstance(a, Flt):
+                return Flt(neg(a.t))
             raise NotEncodable("unop %s on %r" % (rv[1], a))
         if k == "cast":
             a = self._operand(st, uid, rv[1])
@@ -684,6 +726,13 @@ class Executor:
                     return Int(ite(a.t, 1, 0), ty)
                 if isinstance(a, Enum) and ty in INT_TYPES:
                     return Int(wrap(a.d, ty), ty)
+            if kind == "IntToFloat" and isinstance(a, Int) and ty == "f64":
+                self.oblige("fpexact", "%s: int -> f64 beyond 2^53" % fn.name, st.pc,
+                            not_(and_(le(-F64_EXACT, a.t), le(a.t, F64_EXACT))))
+                return Flt(a.t)
+            if kind == "FloatToInt" and isinstance(a, Flt) and ty in INT_TYPES:
+                lo, hi = ty_range(ty)       # Rust float -> int casts saturate
+                return Int(self.ctx.name(ite(lt(a.t, lo), lo, ite(gt(a.t, hi), hi, a.t)), "fi"), ty)
             if kind.startswith("PointerCoercion") or kind in ("Transmute", "PtrToPtr"):
                 return a
             raise NotEncodable("cast %s of %r to %s" % (kind, a, ty))
@@ -758,6 +807,19 @@ class Executor:
                 return Bool(or_(a.t, b.t))
             if op == "BitXor":
                 return Bool(not_(eq(a.t, b.t)) if not is_c(a.t, b.t) else a.t != b.t)
+        if isinstance(a, Flt) and isinstance(b, Flt):
+            x, y = a.t, b.t
+            if op in ("Eq", "Ne", "Lt", "Le", "Gt", "Ge"):
+                f = {"Eq": eq, "Ne": ne, "Lt": lt, "Le": le, "Gt": gt, "Ge": ge}[op]
+                return Bool(f(x, y))
+            if op in ("Add", "Sub", "Mul"):
+                if op == "Mul" and not is_c(x) and not is_c(y):
+                    raise NotEncodable("symbolic f64 * symbolic f64")
+                r = self.ctx.name({"Add": add, "Sub": sub, "Mul": mul}[op](x, y), "f")
+                self.oblige("fpexact", "f64 %s result beyond 2^53" % op, self._cur_pc,
+                            not_(and_(le(-F64_EXACT, r), le(r, F64_EXACT))))
+                return Flt(r)
+            raise NotEncodable("f64 binop %s" % op)
         if isinstance(a, Enum) and isinstance(b, Enum) and op in ("Eq", "Ne"):
             r = eq(a.d, b.d)
             return Bool(r if op == "Eq" else not_(r))
@@ -767,8 +829,9 @@ class Executor:
         x, y = a.t, b.t
         nm = self.ctx.name
         if op in ("AddWithOverflow", "SubWithOverflow", "MulWithOverflow"):
-            exact = {"A": add, "S": sub, "M": mul}[op[0]](x, y)
-            if op[0] == "M" and not is_c(x) and not is_c(y):
+            try:
+                exact = {"A": add, "S": sub, "M": mul}[op[0]](x, y)
+            except NonLinear:
                 raise NotEncodable("symbolic * symbolic")
             exact = nm(exact, "x")
             # the flag keeps its raw form (decided by the solver); the value may use interval knowledge
@@ -781,9 +844,10 @@ class Executor:
                 val = wrap(exact, ty)
             return Agg([Int(nm(val, "w"), ty), Bool(nm(flag, "o"))])
         if op in ("Add", "Sub", "Mul", "AddUnchecked", "SubUnchecked", "MulUnchecked"):
-            if op[0] == "M" and not is_c(x) and not is_c(y):
+            try:
+                exact = {"A": add, "S": sub, "M": mul}[op[0]](x, y)
+            except NonLinear:
                 raise NotEncodable("symbolic * symbolic")
-            exact = {"A": add, "S": sub, "M": mul}[op[0]](x, y)
             return Int(nm(wrap(exact, ty), "w"), ty)
         if op == "Div":
             if not is_c(y):
@@ -845,6 +909,8 @@ class Executor:
         v = self.deref(st, v)
         if isinstance(v, Int):
             return v.ty
+        if isinstance(v, Flt):
+            return "f64"
         if isinstance(v, Bool):
             return "bool"
         if isinstance(v, Enum) and v.name:
